@@ -450,7 +450,10 @@ def oracle(sc: Scenario, run: ctl.Run, props):
         # is the statement the fault breaks certainly executed by this call? (kind 2: only when the call configures the backend
         # itself; n_jobs == 1: start_call / pre_dispatch / islice are not used; `iter` may never be reached if the consumer
         # closes the generator first)
-        fault_sure = bool(call.fault) and (call.fault in (1, 3) or (call.fault == 2 and "configure" in evs)
+        # (a `configure` AFTER the call's own start belongs to a re-call made by the consumer - e.g. after it left the with
+        # block while the generator was alive -, not to this call: found as a false alarm of the thorough tier)
+        own_start = [e for e in evs[:([i for i, e in enumerate(evs) if e in ("start_call",) or e.startswith("pull ")] + [len(evs)])[0]]]
+        fault_sure = bool(call.fault) and (call.fault in (1, 3) or (call.fault == 2 and "configure" in own_start)
                                            or (scc.nj > 1 and call.fault in (4, 5, 6, 7)))
         clean = not failing and iterfail_id is None and (fname is None or raised != fname) and not fault_sure
         # was the call cut short by the consumer?
